@@ -197,3 +197,12 @@ def sx_edits_line(din, author, edits, oracle):
     eds = ' '.join('(%s %s %s %s)' % (A.sx_str(t), A.sx_str(n), A.sx_str(c or ''), '()' if i is None else '(1 %d)' % i) for t, n, c, i in edits)
     orc = ' '.join('()' if o is None else '(%d %d)' % (o[0], o[1]) for o in oracle if o != 'CONTRACT')
     return '(%s %s %s (%s) (%s))' % (A.sx_doc(din), A.sx_str(author), A.sx_str('SESSION'), eds, orc)
+
+def mark_ids(doc):
+    """ids of every w:ins / w:del element of the document (also those without text)"""
+    out = set()
+    def go(nodes):
+        for n in nodes:
+            if n[0] in ('ins', 'del'): out.add(n[2][0]); go(n[3])
+    for p in A.paras(doc): go(p['nodes'])
+    return out
